@@ -7,6 +7,8 @@ From TV Require Export Model.Buffer Spec.Buffer.
 
 Definition FL (f : Z) : fl := mkFl (Z.testbit f 0) (Z.testbit f 1) (Z.testbit f 2).
 Definition G (c f r p g : Z) : glyph := mkG c (FL f) r p g.
+(* with GlyphInfo.unicode and glyphProps *)
+Definition GX (c f r p g u q : Z) : glyph := mkGX c (FL f) r p g u q.
 
 Inductive obs := OState (b : buffer) | OPanic.
 Record case := mkCase { c_init : buffer; c_steps : list (op * obs) }.
@@ -43,7 +45,7 @@ Section Steps.
     match steps with
     | [] => true
     | (o, ob) :: r =>
-      if WF lo hi cur && pre o cur then
+      if WF lo hi cur && pre o cur && op_rng lo hi o then
         match ob with
         | OState st => WF lo hi st && step_ok o cur st && steps_prop st r
         | OPanic => false
@@ -52,8 +54,15 @@ Section Steps.
     end.
 End Steps.
 
+(* the cluster range of a case: the clusters of the initial buffer and those AddRune / AddRunes bring in *)
+Definition op_clusters (o : op) : list Z :=
+  match o with
+  | OAddRune _ c _ => [c]
+  | OAddRunes t off len0 _ => map (fun i => off + i) (zseq (add_runes_len t off len0))
+  | _ => []
+  end.
 Definition case_range (c : case) : Z * Z :=
-  let l := cls (bseq (c_init c)) in (lmin l, lmax l + 1).
+  let l := cls (bseq (c_init c)) ++ flat_map (fun s => op_clusters (fst s)) (c_steps c) in (lmin l, lmax l + 1).
 
 Definition corr_ok (c : case) : bool := steps_corr (c_init c) (c_steps c).
 Definition prop_ok (c : case) : bool :=
